@@ -20,7 +20,7 @@ def kArgs (position : Nat) (size_list : List Nat) : Option Nat × Option Nat :=
 def tailSize (position : Nat) (size_list : List Nat) : Nat :=
   if position < (size_list.length - 1) then redMul (size_list.drop (position + 1)) else 1
 
-/-! ### quara/utils/matrix_util.py:714 `calc_permutation_matrix` -/
+/-! ### quara/utils/matrix_util.py:716 `calc_permutation_matrix` -/
 
 /-- `perm_matrix = left_perm @ perm_matrix` has the new factor on the left -/
 def accumOnLeft : Bool := true
